@@ -12,7 +12,12 @@ import (
 	"gosym/interp"
 )
 
+func newFlagSet(name string) *flag.FlagSet { return flag.NewFlagSet(name, flag.ExitOnError) }
+
 func main() {
+	if len(os.Args) > 1 && os.Args[1] == "check" {
+		os.Exit(runCheck(os.Args[2:]))
+	}
 	repo := flag.String("repo", "/repo", "repository under test")
 	hdir := flag.String("harness-dir", "/verif/harness", "harness sources")
 	pkg := flag.String("pkg", "store", "package (suffix under the module) holding the harness")
